@@ -218,7 +218,8 @@ def run_check(pid, tier, seed, replay):
             path = write_replay(pid, "broken", {"broken": broken, "note": "no failing input found by the implementation-side oracles on this run's cases", "tier": tier, "seed": seed})
             print("VIOLATION property=%s replay=%s no-failing-input-found" % (pid, path))
             reported += 1
-        for sig, v in list(sigs.items())[:8]:
+        # (failing inputs first: a disagreement between model and code is only the fallback)
+        for sig, v in sorted(sigs.items(), key=lambda kv: 0 if kv[1].get("concrete") else 1)[:8]:
             payload = dict(v["payload"], signature=sig, broken=broken, tier=tier, seed=seed)
             path = write_replay(pid, "input" if v.get("concrete") else "corr", payload)
             tail = "" if v.get("concrete") else " no-failing-input-found"
